@@ -10,7 +10,8 @@ THEOREMS = {
                             "filter_fires", "merge_fires", "merge_both", "merge_left", "merge_right", "orelse_fires", "snapshot_fires", "snapshot_fires_val", "snapshot1_fires",
                             "gate_fires", "hold_fires", "updates_fires", "updates_hold_fires", "once_fires", "once_done_silent", "once_done_step",
                             "once_fires_at_most_once", "once_not_twice"]]
-           + ["SodiumVerif.Sched.transaction_glitch_free"],
+           + ["SodiumVerif.Sched.transaction_glitch_free", "SodiumVerif.Bridge.sched_refines_spec", "SodiumVerif.Bridge.sched_refines_spec_static",
+              "SodiumVerif.Bridge.sched_computes_fireTable"],
     "C04": [S + n for n in ["val_stepTxn_hold", "hold_updated", "hold_unchanged", "hold_initial", "val_stepTxn_csink", "accum_fires", "val_stepTxn_accum",
                             "accum_is_foldl", "accum_is_foldl_fresh", "collect_fires", "val_stepTxn_collect", "collect_state_is_foldl", "collect_output", "cell_next_value"]],
     "C05": [S + n for n in ["switchs_fires", "switchs_ignores_selector_update", "switchc_fires_on_switch", "switchc_value", "lift_inv_switchc"]],
@@ -39,7 +40,7 @@ THEOREMS = {
 }
 MODULES = {
     "C01": ["SodiumVerif.Props.C01", "SodiumVerif.Props.C14", "SodiumVerif.Props.C10"],
-    "C02": ["SodiumVerif.Props.C02", "SodiumVerif.Props.C03"],
+    "C02": ["SodiumVerif.Props.C02", "SodiumVerif.Props.C03", "SodiumVerif.Props.Refine"],
     "C04": ["SodiumVerif.Props.C04", "SodiumVerif.Props.C13"],
     "C05": ["SodiumVerif.Props.C05"],
     "C06": ["SodiumVerif.Props.C06"],
